@@ -97,9 +97,16 @@ class Ctx:
         if not solve.feasible(self.pc):
             raise Infeasible()
 
+    def nz(self, t):
+        """normal form of a term (spec functions unfolded on constructor-headed arguments)"""
+        from . import norm
+        if getattr(self, '_nz', None) is None:
+            self._nz = norm.Normalizer(max_steps=2000000)
+        return self._nz.norm(t)
+
     def branch(self, cond, label=''):
         """Fork on a z3 Bool; returns the Python bool chosen for this run."""
-        cond = z3.simplify(cond)
+        cond = z3.simplify(self.nz(cond))
         if z3.is_true(cond):
             return True
         if z3.is_false(cond):
